@@ -11,8 +11,10 @@
      (null RCPs) are modelled by [ezero];
    - while-loops run on explicit fuel ([ErrFuel] if it runs out), for-loops over an index
      range are [for_range]; exceptions are [ErrExn].
-   Branches that look wrong (conjugate swapping the dimensions, csr_diagonal's inclusive
-   binary search, csr_matmat's temporaries sized by A.col_) are transcribed as they are.   *)
+   (The defects found with the first version of this model -- conjugate swapping the
+   dimensions, csr_diagonal's inclusive binary search, csr_matmat's temporaries sized by
+   A.col_, its unsorted result, is_canonical's zero-matrix shortcut -- have been repaired in
+   the library; this file transcribes the repaired code.)                                  *)
 From SE Require Export Base.Prelude.
 Local Open Scope N_scope.
 Local Open Scope res_scope.
@@ -156,10 +158,12 @@ Definition has_canonical_format (p j : list N) (row : N) : res bool :=
 Definition is_canonical (m : mat) : res bool :=
   if negb (lenN (cp m) =? uadd (crow m) 1) then Ok false
   else
-    do n <- getN (cp m) (crow m);
-    if negb (lenN (cj m) =? n) || negb (lenN (cx m) =? n) then Ok false
-    else if negb (n =? 0) then has_canonical_format (cp m) (cj m) (crow m)
-    else Ok true.
+    do p0 <- getN (cp m) 0;
+    if negb (p0 =? 0) then Ok false
+    else
+      do n <- getN (cp m) (crow m);
+      if negb (lenN (cj m) =? n) || negb (lenN (cx m) =? n) then Ok false
+      else has_canonical_format (cp m) (cj m) (crow m).
 
 (* ---------- CSRMatrix::get ---------- *)
 Fixpoint get_loop (fuel : nat) (js : list N) (xs : list E) (c rs re : N) : res E :=
@@ -390,9 +394,9 @@ Definition transpose (m : mat) (conj : bool) : res mat :=
                Ok (j', x', tmp')) st) (j0, x0, tmp0);
   Ok (Build_csr p2 j3 x3 (ccol m) (crow m)).
 
-(* CSRMatrix::conjugate(result): the result is built with (col_, row_) *)
+(* CSRMatrix::conjugate(result) *)
 Definition conjugate (m : mat) : mat :=
-  Build_csr (cp m) (cj m) (map (econj Ops) (cx m)) (ccol m) (crow m).
+  Build_csr (cp m) (cj m) (map (econj Ops) (cx m)) (crow m) (ccol m).
 
 (* ---------- csr_binop_csr_canonical ---------- *)
 Definition push_nz (f : E -> E -> E) (a b : E) (c : N) (out : list N * list E * N)
@@ -456,7 +460,7 @@ Definition elementwise_mul (A B C : mat) : res mat := binop (emul Ops) A B C.
 Definition MASK_INIT : N := 4294967295.   (* (unsigned)-1 *)
 
 Definition matmat_pass1 (A B C : mat) : res mat :=
-  let mask0 := repeat MASK_INIT (N.to_nat (ccol A)) in
+  let mask0 := repeat MASK_INIT (N.to_nat (ccol B)) in
   do p0 <- setN (cp C) 0 0;
   do '(p1, _, _) <- for_range 0 (crow A) (fun i st =>
       let '(p, mask, nnz) := st in
@@ -505,10 +509,10 @@ Fixpoint emit_loop (n : nat) (head : Z) (next : list Z) (sums : list E)
   end.
 
 Definition matmat_pass2 (A B C : mat) : res mat :=
-  let next0 := repeat (-1)%Z (N.to_nat (ccol A)) in
-  let sums0 := repeat (ezero Ops) (N.to_nat (ccol A)) in
+  let next0 := repeat (-1)%Z (N.to_nat (ccol B)) in
+  let sums0 := repeat (ezero Ops) (N.to_nat (ccol B)) in
   do p0 <- setN (cp C) 0 0;
-  do '(p1, oj, ox, _, _, _) <- for_range 0 (crow A) (fun i st =>
+  do '(p1, oj, ox, _, _, nnz) <- for_range 0 (crow A) (fun i st =>
       let '(p, oj, ox, next, sums, nnz) := st in
       do a <- getN (cp A) i;
       do b <- getN (cp A) (uadd i 1);
@@ -531,11 +535,14 @@ Definition matmat_pass2 (A B C : mat) : res mat :=
       do '(next2, sums2, oj', ox', nnz') <- emit_loop (N.to_nat length) head next1 sums1 oj ox nnz;
       do p' <- setN p (uadd i 1) nnz';
       Ok (p', oj', ox', next2, sums2, nnz')) (p0, cj C, cx C, next0, sums0, 0);
-  Ok (Build_csr p1 oj ox (crow C) (ccol C)).
+  (* C.j_.resize(nnz); C.x_.resize(nnz); csr_sort_indices(C.p_, C.j_, C.x_, A.row_) *)
+  do '(j2, x2) <- sort_indices p1 (resizeN oj nnz 0) (resizeN ox nnz (ezero Ops)) (crow A);
+  Ok (Build_csr p1 j2 x2 (crow C) (ccol C)).
 
 (* The library has no caller of the two passes; the protocol used by the driver and here
    (the one of SciPy, where the code comes from):  C = CSRMatrix(A.row_, B.col_);  pass 1;
-   C.j_ and C.x_ sized to C.p_[A.row_];  pass 2;  C.j_ and C.x_ trimmed to the new C.p_[A.row_] *)
+   C.j_ and C.x_ sized to C.p_[A.row_];  pass 2 (which now trims and sorts itself; the final
+   resize of the protocol is kept and is a no-op) *)
 Definition matmat (A B : mat) : res mat :=
   do C1 <- matmat_pass1 A B (mk_zero (crow A) (ccol B));
   do n1 <- getN (cp C1) (crow A);
@@ -545,17 +552,17 @@ Definition matmat (A B : mat) : res mat :=
   Ok (Build_csr (cp C2) (resizeN (cj C2) n2 0) (resizeN (cx C2) n2 (ezero Ops)) (crow C2) (ccol C2)).
 
 (* ---------- csr_diagonal ---------- *)
-(* while (row_start <= row_end) { jj = (row_start + row_end) / 2; ... } *)
+(* while (row_start < row_end) { jj = (row_start + row_end) / 2; ... }   half-open binary search *)
 Fixpoint diag_loop (fuel : nat) (A : mat) (i rs re : N) : res E :=
   match fuel with
   | O => ErrFuel
   | S f =>
-      if rs <=? re then
+      if rs <? re then
         let jj := uadd rs re / 2 in
         do c <- getN (cj A) jj;
         if c =? i then getN (cx A) jj
         else if c <? i then diag_loop f A i (uadd jj 1) re
-        else diag_loop f A i rs (usub jj 1)
+        else diag_loop f A i rs jj
       else Ok (ezero Ops)
   end.
 
@@ -564,7 +571,7 @@ Definition diagonal (A : mat) : res (list E) :=
   do r <- for_range 0 (N.min (crow A) (ccol A)) (fun i acc =>
       do rs <- getN (cp A) i;
       do re <- getN (cp A) (uadd i 1);
-      do d <- diag_loop (S (S (S (N.to_nat (re - rs))))) A i rs re;
+      do d <- diag_loop (S (N.to_nat (re - rs))) A i rs re;
       Ok (d :: acc)) [];
   Ok (rev r).
 
